@@ -6,6 +6,7 @@ Code-shaped models: Model/Sha256.lean, Model/Md.lean, Model/Bc.lean.
 -/
 import RelicVerif.Lemmas.Md
 import RelicVerif.Lemmas.ShaStream
+import RelicVerif.Lemmas.Blake2s
 
 namespace Relic.Props.C14
 open Relic.Spec Relic.Model Relic.Lemmas.Md
@@ -44,6 +45,31 @@ theorem sha512_streaming_conforms (chunks : List Bytes) (hlen : 8 * chunks.flatt
 theorem sha256_streaming_generic_conforms (chunks : List Bytes) (hlen : 8 * chunks.flatten.length < 2 ^ 64) :
     ShaStream.run ShaStream.sha256P chunks = some (Spec.Sha256.sha256 chunks.flatten) :=
   Relic.Lemmas.ShaStream.sha256_streaming' chunks hlen
+
+/-- BLAKE2s, incremental API of blake2s-ref.c (blake2s_init / blake2s_init_key, one blake2s_update per chunk with the
+    buffer-fill logic and the t[0]/t[1] counter with carry, blake2s_final with last-block flag and zero padding) =
+    RFC 7693 (keyed when the key is non-empty) for every chunking, every digest length 1..32, every key length 0..32 -/
+theorem blake2s_streaming_conforms (nn : Nat) (key : Bytes) (chunks : List Bytes) (hn1 : 1 ≤ nn) (hn : nn ≤ 32)
+    (hk : key.length ≤ 32) (hlen : 64 + chunks.flatten.length < 2 ^ 64) :
+    Relic.Model.Blake2s.run nn key chunks = some (Relic.Spec.Blake2s.blake2sK nn key chunks.flatten) :=
+  Relic.Lemmas.Blake2s.run_eq nn key chunks hn1 hn hk hlen
+
+/-- the one-shot blake2s() = RFC 7693 -/
+theorem blake2s_oneshot_conforms (nn : Nat) (key msg : Bytes) (hn1 : 1 ≤ nn) (hn : nn ≤ 32)
+    (hk : key.length ≤ 32) (hlen : 64 + msg.length < 2 ^ 64) :
+    Relic.Model.Blake2s.blake2s nn msg key = some (Relic.Spec.Blake2s.blake2sK nn key msg) :=
+  Relic.Lemmas.Blake2s.oneshot_eq nn key msg hn1 hn hk hlen
+
+/-- md_map_b2s160 / md_map_b2s256 (blake2s() without key) = the unkeyed RFC 7693 function -/
+theorem md_map_b2s_conforms (nn : Nat) (msg : Bytes) (hn1 : 1 ≤ nn) (hn : nn ≤ 32) (hlen : 64 + msg.length < 2 ^ 64) :
+    Relic.Model.Blake2s.blake2s nn msg [] = some (Relic.Spec.Blake2s.blake2s nn msg) := by
+  rw [Relic.Lemmas.Blake2s.unkeyed_eq]
+  exact Relic.Lemmas.Blake2s.oneshot_eq nn [] msg hn1 hn (by simp) hlen
+
+/-- digest length 0 or above 32, or a key above 32 bytes: rejected -/
+theorem blake2s_rejects_bad_parameters (nn : Nat) (key msg : Bytes) (h : nn = 0 ∨ nn > 32 ∨ key.length > 32) :
+    Relic.Model.Blake2s.blake2s nn msg key = none :=
+  Relic.Lemmas.Blake2s.oneshot_rejects nn key msg h
 
 /-- HMAC, all key lengths -/
 theorem hmac_conforms (H : Hash) (hout : ∀ b, (H.h b).length = H.outLen) (hle : H.outLen ≤ H.blockLen)
@@ -155,5 +181,6 @@ theorem aes_cbc_rejects_bad_padding (mkD : Bytes → Bytes → Bytes) (key iv c 
 /-- non-vacuity: PKCS#7 of a 3-byte message; the padding split of SHA-256 at 55/56 bytes -/
 example : Aes.pkcs7Pad [1, 2, 3] = [1, 2, 3] ++ List.replicate 13 13 := by decide
 example : (Spec.Sha256.pad 55).length = 9 ∧ (Spec.Sha256.pad 56).length = 72 := by decide
+example : (Spec.MD.pad 128 16 111).length = 17 ∧ (Spec.MD.pad 128 16 112).length = 144 := by decide +kernel
 
 end Relic.Props.C14
